@@ -6,6 +6,7 @@ import (
 	"go/types"
 	"sort"
 	"strings"
+	"time"
 
 	"golang.org/x/tools/go/ssa"
 )
@@ -38,6 +39,8 @@ func init() {
 const c10SortedPath = "perkeep.org/pkg/sorted"
 
 func runC10(p *Program, r *Reporter) {
+	t0 := time.Now()
+	defer func() { r.Note("C10 rules took %.2fs after loading", time.Since(t0).Seconds()) }()
 	r.Analysed("functions", len(p.FuncsUnder("pkg/sorted")))
 	c10RuleSize(p, r)
 	c10RuleTxn(p, r)
@@ -1098,7 +1101,7 @@ func c10CheckKVTxn(p *Program, r *Reporter, fn *ssa.Function, begin CallSite) {
 	var common LockSet
 	first := true
 	for _, c := range CallsIn(fn, true) {
-		if !c10IsKVDB(c, "BeginTransaction", "Set", "Delete", "Commit", "Rollback") || c.IsDefer() && false {
+		if !c10IsKVDB(c, "BeginTransaction", "Set", "Delete", "Commit", "Rollback") {
 			continue
 		}
 		held := LockSet{}
@@ -1543,8 +1546,8 @@ func (bi *c10BufInfo) batchRole(fn *ssa.Function, v ssa.Value, depth int) string
 
 // exceptions: accesses to buf/back that deliberately happen without kv.mu.
 var c10BufLockExceptions = map[string]string{
-	"pkg/sorted/buffer.(*KeyValue).Find#buf.Find":   "iterators outlive the call; holding the read lock for an iterator's life would block Flush indefinitely (source TODO: 'hold read lock while iterating?') — accepted, and excluded from what this rule decides",
-	"pkg/sorted/buffer.(*KeyValue).Find#back.Find":  "same as buf.Find",
+	"pkg/sorted/buffer.(*KeyValue).Find#buf.Find":    "iterators outlive the call; holding the read lock for an iterator's life would block Flush indefinitely (source TODO: 'hold read lock while iterating?') — accepted, and excluded from what this rule decides",
+	"pkg/sorted/buffer.(*KeyValue).Find#back.Find":   "same as buf.Find",
 	"pkg/sorted/buffer.(*KeyValue).Close#back.Close": "terminal call after Flush released mu; using a store concurrently with its Close is the caller's error for every sorted.KeyValue",
 }
 
@@ -1983,8 +1986,8 @@ func c10IterEOF(p *Program, r *Reporter) {
 		return idx[0], idx[1:]
 	}
 	type state struct {
-		eof map[int]int8       // role -> 0 false, 1 true, -1 unknown
-		res map[ssa.Value]int  // result of next() -> role
+		eof map[int]int8      // role -> 0 false, 1 true, -1 unknown
+		res map[ssa.Value]int // result of next() -> role
 	}
 	clone := func(s state) state {
 		o := state{eof: map[int]int8{}, res: map[ssa.Value]int{}}
@@ -2039,6 +2042,9 @@ func c10IterEOF(p *Program, r *Reporter) {
 					}
 					sites[role]++
 					if get(s, role) != 0 {
+						if len(bad[role]) == 0 {
+							firstPos[role] = x.Pos() // report the offending call site
+						}
 						bad[role] = append(bad[role], fmt.Sprintf("line %d", p.Fset.Position(x.Pos()).Line))
 					}
 					s.eof[role] = -1
